@@ -287,6 +287,14 @@ func runC02(c *Ctx) {
 	c.OnlyWrittenIn("types", "blockVotes", "sum", 1, `^\(\*types\.blockVotes\)\.addVerifiedVote$`, `^types\.newBlockVotes$`)
 	c.OnlyCalledFrom("VoteSet.addVerifiedVote only from VoteSet.addVote", `^\(\*types\.VoteSet\)\.addVerifiedVote$`, 1, `^\(\*types\.VoteSet\)\.addVote$`)
 
+	// vote admission runs under the vote set's lock (duplicate test and tally update are atomic)
+	if fn := c.Fn("types", "VoteSet", "AddVote"); fn != nil {
+		c.CriticalSection(fn, `^&voteSet\.mtx`, "vote admission", CallTo(`^\(\*types\.VoteSet\)\.addVote$`, ""))
+	}
+	if fn := c.Fn("consensus/types", "HeightVoteSet", "AddVote"); fn != nil {
+		c.CriticalSection(fn, `^&hvs\.mtx`, "round lookup / creation and vote admission", Or(CallTo(`^\(\*consensus/types\.HeightVoteSet\)\.(getVoteSet|addRound)$`, ""), CallTo(`^\(\*types\.VoteSet\)\.AddVote$`, "")))
+	}
+
 	// ---- VoteSet.addVote: verified before counted ----------------------------------------------------
 	if fn := c.Fn("types", "VoteSet", "addVote"); fn != nil {
 		val := `call:\(\*types\.ValidatorSet\)\.GetByIndex\(voteSet\.valSet, vote\.ValidatorIndex\)`
@@ -330,47 +338,7 @@ func runC02(c *Ctx) {
 		c.Check("F", fnName(fn)+"/is maj23 != nil", ok, fn.Pos(), 1, "")
 	}
 
-	// ---- VerifyCommit -------------------------------------------------------------------------------
-	if fn := c.Fn("types", "ValidatorSet", "VerifyCommit"); fn != nil {
-		twoT := `^\(\(call:\(\*types\.ValidatorSet\)\.TotalVotingPower\(vs\) \* const:2\) / const:3\)$`
-		c.Guarded(fn, "return nil", ReturnWith(0, `^nil$`),
-			G("vs != nil", NotNil(`^vs$`)),
-			G("commit != nil", NotNil(`^commit$`)),
-			G("commit.ValidateBasic() == nil", IsNil(`^call:\(\*types\.Commit\)\.ValidateBasic\(commit\)$`)),
-			G("vs.Size() == len(commit.Signatures)", Cmp(`^call:\(\*types\.ValidatorSet\)\.Size\(vs\)$`, "==", `^call:len\(commit\.Signatures\)$`)),
-			G("height == commit.GetHeight()", Cmp(`^height$`, "==", `^call:\(\*types\.Commit\)\.GetHeight\(commit\)$`)),
-			G("blockID.Equal(commit.BlockID)", True(`^call:\(\*types\.BlockID\)\.Equal\(&\(blockID\), commit\.BlockID\)$`)),
-			G("tallied > total*2/3", Cmp(`VotingPower`, ">", twoT)))
-		// the tally increment
-		isInc := func(in ssa.Instruction) bool {
-			bo, ok := in.(*ssa.BinOp)
-			return ok && bo.Op == token.ADD && re(`^vs\.Validators\[.*\]\.VotingPower$`).MatchString(pathOf(bo.Y))
-		}
-		incs := findInstrs(fn, isInc)
-		c.Guarded(fn, "tally += val.VotingPower", isInc,
-			G("!commitSig.Absent()", False(`^call:\(types\.CommitSig\)\.Absent\(commit\.Signatures\[`)),
-			G("VerifySignature(val.Address, Keccak256(commit.VoteSignBytes(chainID, idx)), commitSig.Signature)", True(`^call:types\.VerifySignature\(vs\.Validators\[`)),
-			G("blockID.Equal(commitSig.BlockID(commit.BlockID))", True(`^call:\(\*types\.BlockID\)\.Equal\(&\(blockID\), call:\(types\.CommitSig\)\.BlockID\(commit\.Signatures\[.*\], commit\.BlockID\)\)$`)))
-		// same index selects validator, signature and sign bytes
-		if len(incs) == 1 {
-			idx := between(pathOf(incs[0].(*ssa.BinOp).Y), "vs.Validators[", "].VotingPower")
-			vs := findInstrs(fn, CallTo(`^types\.VerifySignature$`, ""))
-			ok := len(vs) == 1
-			detail := ""
-			if ok {
-				a := argPaths(callCommon(vs[0]))
-				detail = strings.Join(a, " | ")
-				ok = len(a) == 3 && a[0] == "vs.Validators["+idx+"].Address" &&
-					strings.Contains(a[1], "call:(*types.Commit).VoteSignBytes(commit, chainID, "+idx+")") && strings.Contains(a[1], "Keccak256") &&
-					strings.HasPrefix(a[2], "commit.Signatures["+idx+"]") && strings.HasSuffix(a[2], ".Signature")
-			}
-			c.Check("F", fnName(fn)+"/one index selects validator, sign bytes and signature", ok, fn.Pos(), 3, clip(detail, 300))
-			// idx is the range index over commit.Signatures
-			c.Check("F", fnName(fn)+"/index ranges over commit.Signatures", strings.Contains(idx, "phi"), fn.Pos(), 1, idx)
-		} else {
-			c.Bad("F", fnName(fn)+"/one index selects validator, sign bytes and signature", fn.Pos(), len(incs), fmt.Sprintf("%d tally increments found, expected 1", len(incs)))
-		}
-	}
+	verifyCommitRules(c)
 
 	// ---- MakeCommit -------------------------------------------------------------------------------
 	if fn := c.Fn("types", "VoteSet", "MakeCommit"); fn != nil {
@@ -486,4 +454,50 @@ func (c *Ctx) fnPos(name string) token.Pos {
 		return f.Pos()
 	}
 	return token.NoPos
+}
+
+// verifyCommitRules: ValidatorSet.VerifyCommit accepts only a verified +2/3 for exactly that block id (shared by C01, C02, C11, C13).
+func verifyCommitRules(c *Ctx) {
+	// ---- VerifyCommit -------------------------------------------------------------------------------
+	if fn := c.Fn("types", "ValidatorSet", "VerifyCommit"); fn != nil {
+		twoT := `^\(\(call:\(\*types\.ValidatorSet\)\.TotalVotingPower\(vs\) \* const:2\) / const:3\)$`
+		c.Guarded(fn, "return nil", ReturnWith(0, `^nil$`),
+			G("vs != nil", NotNil(`^vs$`)),
+			G("commit != nil", NotNil(`^commit$`)),
+			G("commit.ValidateBasic() == nil", IsNil(`^call:\(\*types\.Commit\)\.ValidateBasic\(commit\)$`)),
+			G("vs.Size() == len(commit.Signatures)", Cmp(`^call:\(\*types\.ValidatorSet\)\.Size\(vs\)$`, "==", `^call:len\(commit\.Signatures\)$`)),
+			G("height == commit.GetHeight()", Cmp(`^height$`, "==", `^call:\(\*types\.Commit\)\.GetHeight\(commit\)$`)),
+			G("blockID.Equal(commit.BlockID)", True(`^call:\(\*types\.BlockID\)\.Equal\(&\(blockID\), commit\.BlockID\)$`)),
+			G("tallied > total*2/3", Cmp(`VotingPower`, ">", twoT)))
+		// the tally increment
+		isInc := func(in ssa.Instruction) bool {
+			bo, ok := in.(*ssa.BinOp)
+			return ok && bo.Op == token.ADD && re(`^vs\.Validators\[.*\]\.VotingPower$`).MatchString(pathOf(bo.Y))
+		}
+		incs := findInstrs(fn, isInc)
+		c.Guarded(fn, "tally += val.VotingPower", isInc,
+			G("!commitSig.Absent()", False(`^call:\(types\.CommitSig\)\.Absent\(commit\.Signatures\[`)),
+			G("VerifySignature(val.Address, Keccak256(commit.VoteSignBytes(chainID, idx)), commitSig.Signature)", True(`^call:types\.VerifySignature\(vs\.Validators\[`)),
+			G("blockID.Equal(commitSig.BlockID(commit.BlockID))", True(`^call:\(\*types\.BlockID\)\.Equal\(&\(blockID\), call:\(types\.CommitSig\)\.BlockID\(commit\.Signatures\[.*\], commit\.BlockID\)\)$`)))
+		// same index selects validator, signature and sign bytes
+		if len(incs) == 1 {
+			idx := between(pathOf(incs[0].(*ssa.BinOp).Y), "vs.Validators[", "].VotingPower")
+			vs := findInstrs(fn, CallTo(`^types\.VerifySignature$`, ""))
+			ok := len(vs) == 1
+			detail := ""
+			if ok {
+				a := argPaths(callCommon(vs[0]))
+				detail = strings.Join(a, " | ")
+				ok = len(a) == 3 && a[0] == "vs.Validators["+idx+"].Address" &&
+					strings.Contains(a[1], "call:(*types.Commit).VoteSignBytes(commit, chainID, "+idx+")") && strings.Contains(a[1], "Keccak256") &&
+					strings.HasPrefix(a[2], "commit.Signatures["+idx+"]") && strings.HasSuffix(a[2], ".Signature")
+			}
+			c.Check("F", fnName(fn)+"/one index selects validator, sign bytes and signature", ok, fn.Pos(), 3, clip(detail, 300))
+			// idx is the range index over commit.Signatures
+			c.Check("F", fnName(fn)+"/index ranges over commit.Signatures", strings.Contains(idx, "phi"), fn.Pos(), 1, idx)
+		} else {
+			c.Bad("F", fnName(fn)+"/one index selects validator, sign bytes and signature", fn.Pos(), len(incs), fmt.Sprintf("%d tally increments found, expected 1", len(incs)))
+		}
+	}
+
 }
